@@ -30,8 +30,12 @@ RRandCall(op, St) == IF op = "DeleteObjects" THEN RandBulk(St) ELSE NoVidOf(Rand
 \* the situation of a bulk delete: versioning state and, per entry, condition x object present x outcome
 BulkSit(St, c) ==
   IF c.op = "DeleteObjects" /\ St.bver[c.b] # "Absent"
-  THEN LET out == BulkDelete(St, c).ents IN
-       {<<"bulk", St.bver[c.b], c.entries[i].cond, HasCurrent(St.objs[c.b][c.entries[i].k]), out[i].deleted>> : i \in 1..Len(c.entries)}
+  THEN LET out == BulkDelete(St, c).ents
+           nullKind(vs) == IF St.bver[c.b] # "Suspended" THEN "-"
+                           ELSE IF Idx(vs, 0) = 0 THEN "no-null-version"
+                           ELSE IF vs[Idx(vs, 0)].latest THEN "null-is-current" ELSE "null-not-current" IN
+       {<<"bulk", St.bver[c.b], c.entries[i].cond, HasCurrent(St.objs[c.b][c.entries[i].k]),
+          nullKind(St.objs[c.b][c.entries[i].k]), out[i].deleted>> : i \in 1..Len(c.entries)}
        \cup (IF (\E i \in 1..Len(out) : out[i].deleted) /\ (\E i \in 1..Len(out) : ~out[i].deleted)
              THEN {<<"bulk-mixed", St.bver[c.b]>>} ELSE {})
   ELSE {}
